@@ -405,7 +405,25 @@ func mutations(part, parts int) {
 // 32-bit range and beyond, very long, zero-padded) and long hex parts with
 // every byte value substituted at positions around every power-of-two length.
 func edges(part, parts int) {
-	decs := []string{"2147483647", "2147483648", "-2147483648", "-2147483649", "4294967295", "4294967296", "-4294967296",
+	// records belong to whoever reads them: overwriting one must not change what
+	// the same line decodes to later (on this stream or another)
+	for _, line := range []string{"5 F8\n", "5 FA\n", "5 FE\n", "5 FF\n", "5 903C40\n", "5 C0\n", "5 F0F7\n"} {
+		if part != 0 {
+			break
+		}
+		ctx.Eval()
+		first, _, err1 := midicat.ReadAndConvert(strings.NewReader(line))
+		want := append([]byte(nil), first...)
+		for i := range first {
+			first[i] ^= 0xBA
+		}
+		again, _, err2 := midicat.ReadAndConvert(strings.NewReader(line + line))
+		if err1 != nil || err2 != nil || !bytes.Equal(again, want) {
+			report("record-not-owned", line, nil, fmt.Sprintf("the record decoded from %q was overwritten by its reader; the same line now decodes to % X (was % X)", line, again, want))
+		}
+	}
+	decs := []string{"18446744073709551639", "18446744073709551616", "36893488147419103232", "36893488147419103255", "-18446744073709551639", "340282366920938463463374607431768211479",
+		"2147483647", "2147483648", "-2147483648", "-2147483649", "4294967295", "4294967296", "-4294967296",
 		"9999999999", "-1000000000", "-10000000000", "-21474836480", "-214748364800", "99999999999", "18446744073709551616",
 		"0000000012", "00000000012", "000000000012", "0000000000000012", "-00000000012", "-000000000012", "-0", "00", "-00000000000000000000001"}
 	msgs := [][]byte{{0x90, 0x3C, 0x40}, {0xF8}}
